@@ -132,16 +132,12 @@ func checkC04(c *Ctx) {
 	}
 
 	// ---- R3 -------------------------------------------------------------------------
-	var goGet *ssa.Go
-	eachInstr(vf, func(in ssa.Instruction) {
-		if g, ok := in.(*ssa.Go); ok {
-			for _, t := range m.funcValueTargets(g.Call.Value) {
-				if m.reachesStoreOp(t) {
-					goGet = g
-				}
-			}
+	var goGet ssa.Instruction
+	for _, sp := range m.Spawns() {
+		if sp.Fn == vf && m.spawnsStoreOp(sp.At) {
+			goGet = sp.At
 		}
-	})
+	}
 	var pre, wait *ssa.Select
 	eachInstr(vf, func(in ssa.Instruction) {
 		s, ok := in.(*ssa.Select)
